@@ -46,7 +46,22 @@ def spec(th, seed):
         u.append(san('C18_bitfield', 'mon/C18_bitfield.cpp', 0.02, fs='csan', args=D(256)))
         u.append(san('C11_common', 'mon/C11_common.cpp', 0.01, fs='csan', args=STR + D(64)))
         u.append(san('C06_misc', 'mon/C06_misc.cpp', 0.02, fs='csan', args=STR + D(64)))
+    # operator-swizzle proxies read lanes of the vector they live in: the C17 swizzle monitor reads every swizzle of exactly-sized heap
+    # objects under ASan (quick: packed float; thorough: all of C17's sanitizer units). Its generated sources need C17's pre hook.
+    import C17
+    s17 = C17.spec(True, seed)
+    g17 = [x for x in s17['units'] if x.flagset == 'gsan' and (th or x.name.endswith('op.f32.packed.gsan'))]
+    for x in g17:
+        x.role = 'san'; x.timeout = 3000
+    u += g17
+
+    def pre(bdir, repo, units):
+        mine = [x for x in units if x in g17 or x.src.startswith('mon/C17')]
+        if mine:
+            s17['pre'](bdir, repo, mine)
+
     return {
+        'pre': pre,
         'units': u,
         'parallel_units': 16,
         'sanitizer': True,
